@@ -30,7 +30,10 @@ impl Vm {
             if cycles % 8192 == 0 {
                 self.run_gc();
             }
-            if cycles == count {
+            // `count` instructions have been executed once the counter moves past it.
+            // Testing for equality here returned before the count-th instruction ran,
+            // so a budget of 1 never executed anything.
+            if cycles > count {
                 self.run_gc();
                 return Ok(None);
             }
